@@ -1,10 +1,13 @@
 /-
 C14 — An unanswered submit times out exactly once, never early.
 Tier 2 (correlator operations taken atomically; the clock is the virtual time passed to
-each operation).
+each operation), and TURN LEVEL (Model/SweepTasks.lean): the operations as coroutines that give up control in the
+send_error hook of their sweep, other operations starting and resuming in between in any order —
+`exactly_once_under_interleaving`, `interleaved_never_early`, `interleaved_nothing_passed_over`.
 -/
 import SmppVerif.Lemmas.Expiry
 import SmppVerif.Lemmas.RcptHistory
+import SmppVerif.Lemmas.SweepTasks
 
 namespace SmppVerif.Props.C14
 open SmppVerif SmppVerif.Corr SmppVerif.Lemmas.Corr SmppVerif.Lemmas.Expiry
@@ -125,6 +128,53 @@ theorem unanswered_reported_exactly_once (L q : Nat) (m : Msg) (pm : Plain L q m
     (runOps L (initState ttlR ttlD) (pre ++ Op.put t m :: post)).2 = 1 :=
   (plain_ledger (∀ op ∈ post, GoodResp q op) L q m pm ttlR ttlD t pre post hc (fun g => g)).2 hno hsettle
 
+/-! ### turn level: operations interleaved at the send_error hook -/
+
+open SmppVerif.SweepTasks SmppVerif.Lemmas.SweepTasks in
+/-- Exactly once, safety half, under EVERY interleaving: take any schedule of operation starts (put of a request or a
+    probe, get for a response) and resumptions of operations suspended in the send_error hook, in any order, with any
+    clock values.  A request that was not in the store and is stored at most once leaves the store at most once over the
+    whole run: it is reported as timed out at most once, and never both reported and matched by a response. -/
+theorem exactly_once_under_interleaving (k : Nat) (evs : List Ev) (w : World) (hnew : aget w.cs.store k = none)
+    (hput : inserted k (run w evs).2 ≤ 1) : removed k (run w evs).2 ≤ 1 :=
+  at_most_once k evs w hnew hput
+
+open SmppVerif.SweepTasks SmppVerif.Lemmas.SweepTasks in
+/-- the counting law behind it, for every key and every schedule -/
+theorem removals_bounded_by_insertions (k : Nat) (evs : List Ev) (w : World) :
+    removed k (run w evs).2 + live (run w evs).1.cs k ≤ inserted k (run w evs).2 + live w.cs k :=
+  run_bal k evs w
+
+open SmppVerif.SweepTasks SmppVerif.Lemmas.SweepTasks in
+/-- Never early, whoever sweeps: a turn of any sweep removes a request only if that sweep's clock value — read when the
+    sweep started, so not later than the present — is more than the time-to-live past the moment the request was stored. -/
+theorem interleaved_never_early (now : Nat) (ks : List Nat) (s : CState) (k : Nat) (o : List Out)
+    (h : Obs.timeout k o ∈ (sweepTurn now ks s).2.1) :
+    ∃ at_ m, aget s.store k = some (at_, m) ∧ now - at_ > s.ttlResp :=
+  timeout_never_early now ks s k o h
+
+open SmppVerif.SweepTasks SmppVerif.Lemmas.SweepTasks in
+/-- By the next request: a sweep never passes over an overdue request of its snapshot that is still stored — it reports
+    it in this turn or keeps it among the keys to visit; so once the sweep is through, every overdue request of its
+    snapshot has left the store. -/
+theorem interleaved_nothing_passed_over (now : Nat) (ks : List Nat) (s : CState) (k at_ : Nat) (m : Msg)
+    (hk : k ∈ ks) (hg : aget s.store k = some (at_, m)) (hexp : now - at_ > s.ttlResp) :
+    (∃ o, Obs.timeout k o ∈ (sweepTurn now ks s).2.1) ∨
+    (∃ rest, (sweepTurn now ks s).2.2 = some rest ∧ k ∈ rest.keys) :=
+  overdue_not_skipped now ks s k at_ m hk hg hexp
+
+/-- non-vacuity (kernel evaluation of the turn-level model): two overdue requests; the probe's sweep reports the first and is
+    suspended in the hook; meanwhile a late response for the second starts its own operation (found: matched), whose sweep
+    finds nothing left to report; the probe's sweep resumes, skips the second (gone) and stores the probe.  One outcome each. -/
+example :
+    let m1 : Msg := { kind := .submitSm, seq := 1, logId := 51 }
+    let m2 : Msg := { kind := .submitSm, seq := 2, logId := 52 }
+    let w : SmppVerif.SweepTasks.World := ⟨{ ttlResp := 10, ttlDeliv := 1000, store := [(1, (100, m1)), (2, (100, m2))] }, []⟩
+    let r := SmppVerif.SweepTasks.run w [.start (.put { kind := .enquireLink, seq := 7 }) 120,
+                   .start (.get { kind := .submitSmResp, seq := 2 }) 120, .resume 0 121]
+    r.2 = [.timeout 1 [.sendError m1], .matched 2 m2, .stored 7 121] ∧ r.1.tasks = [] ∧ r.1.cs.store.map (·.1) = [7] := by
+  decide +kernel
+
 end SmppVerif.Props.C14
 
 #print axioms SmppVerif.Props.C14.put_is_sweep_then_store
@@ -136,3 +186,7 @@ end SmppVerif.Props.C14
 #print axioms SmppVerif.Props.C14.answered_not_timed_out
 #print axioms SmppVerif.Props.C14.nothing_reported_before_ttl
 #print axioms SmppVerif.Props.C14.unanswered_reported_exactly_once
+#print axioms SmppVerif.Props.C14.exactly_once_under_interleaving
+#print axioms SmppVerif.Props.C14.removals_bounded_by_insertions
+#print axioms SmppVerif.Props.C14.interleaved_never_early
+#print axioms SmppVerif.Props.C14.interleaved_nothing_passed_over
